@@ -339,3 +339,10 @@ package resources
 //@   props C18
 //@   pure
 //@   sweep
+
+//@ func NewResourceFromProto(proto *si.Resource) (out *Resource)
+//@   props C01 C13
+//@   sweep
+//@   mode nopanic=off
+//@   assigns nothing
+//@   ensures fresh(out) && fresh(out.Resources) && out.Resources != nil
